@@ -17,6 +17,29 @@ from lib import jdfgen, vbuild, tracecheck
 HERE = os.path.dirname(os.path.abspath(__file__))
 
 
+class phase(object):
+    """with phase(ctx, "name"): ...  -> wall and CPU (children) seconds of the phase in the evidence"""
+
+    def __init__(self, ctx, name):
+        self.ctx, self.name = ctx, name
+
+    def __enter__(self):
+        import resource
+        import time
+        r = resource.getrusage(resource.RUSAGE_CHILDREN)
+        self.t0, self.c0 = time.time(), r.ru_utime + r.ru_stime
+        return self
+
+    def __exit__(self, *a):
+        import resource
+        import time
+        r = resource.getrusage(resource.RUSAGE_CHILDREN)
+        d = self.ctx.extra.setdefault("phases", {}).setdefault(self.name, {"wall_s": 0.0, "cpu_s": 0.0})
+        d["wall_s"] = round(d["wall_s"] + time.time() - self.t0, 1)
+        d["cpu_s"] = round(d["cpu_s"] + r.ru_utime + r.ru_stime - self.c0, 1)
+        return False
+
+
 def _sh(cmd, cwd=None, timeout=600):
     p = subprocess.run(cmd, cwd=cwd, stdout=subprocess.PIPE, stderr=subprocess.STDOUT, timeout=timeout)
     return p.returncode, p.stdout.decode(errors="replace")
@@ -34,6 +57,19 @@ def _stamp():
     st.append("hdr:%d" % int(vbuild._headers_mtime()))
     st.append(" ".join(vbuild.cflags()))
     return "|".join(st)
+
+
+def _prune_cache(keep=1500):
+    """the object cache stays small: oldest entries beyond `keep` are removed"""
+    cdir = os.path.join(vbuild.BUILD_ROOT, "ptg-cache")
+    try:
+        fs = [os.path.join(cdir, f) for f in os.listdir(cdir) if f.endswith(".o")]
+        if len(fs) > keep:
+            fs.sort(key=os.path.getmtime)
+            for f in fs[:len(fs) - keep]:
+                os.unlink(f)
+    except OSError:
+        pass
 
 
 def _compile_one(args):
@@ -73,6 +109,7 @@ def build_driver(ctx, progs, tag, backends=None, jobs=6):
     os.makedirs(outdir, exist_ok=True)
     backends = backends or {}
     stamp = _stamp()
+    _prune_cache()
     work = [(p, outdir, backends.get(p["name"]), stamp) for p in progs]
     with concurrent.futures.ThreadPoolExecutor(max_workers=jobs) as ex:
         res = list(ex.map(_compile_one, work))
@@ -213,6 +250,15 @@ def model_checks(ctx, d):
     every task (TermOK); the search depth is checked as a second guard."""
     from lib import mcgen, tlc
     res = []
+    with phase(ctx, "model_checking"):
+        _model_checks(ctx, d, res)
+    ctx.exhaustive = True
+    ctx.extra["exec_models"] = res
+    return res
+
+
+def _model_checks(ctx, d, res):
+    from lib import mcgen, tlc
     for name, p, again, it, ch in small_programs(ctx.quick):
         interp, _ = jdfgen.validate(p)
         mod, cfg = mcgen.write_mc(d, name, "Exec", {"Prog": p, "AgainMax": again, "StartupIter": it, "StartupChunk": ch,
@@ -228,9 +274,6 @@ def model_checks(ctx, d):
     r = ctx.tlc_check(d, mod, cfg, expect_ok=False, workers=2, timeout=600, heap="2g")
     if r.violated != "deadlock":
         raise tlc.TLCError("sensitivity self-test: Exec with `<=`-only loops must deadlock on a descending chain, got %r" % r.violated)
-    ctx.exhaustive = True
-    ctx.extra["exec_models"] = res
-    return res
 
 
 def cross_check_programs(ctx, entries, tag):
@@ -285,8 +328,16 @@ def campaign(ctx, entries, configs, trace_cfg, tag, again=None, window_ms=1500, 
             keep.append(e)
         ctx.extra["skipped_known_class_programs"] = len(entries) - len(keep)
         entries = keep
-    cross_check_programs(ctx, entries, tag)
-    exe = build_driver(ctx, [e["prog"] for e in entries], tag, backends=backends)
+    with phase(ctx, "cross_check_programs"):
+        cross_check_programs(ctx, entries, tag)
+    with phase(ctx, "build"):
+        exe = build_driver(ctx, [e["prog"] for e in entries], tag, backends=backends)
+    return _campaign(ctx, entries, configs, trace_cfg, tag, again, window_ms, jobs, known_key, what, exe)
+
+
+def _campaign(ctx, entries, configs, trace_cfg, tag, again, window_ms, jobs, known_key, what, exe):
+    import concurrent.futures
+    t_run = phase(ctx, "runs").__enter__()
     executions = []          # (meta, events)
     hung = {}                # program name -> (meta, events)
     excluded = set()
@@ -311,6 +362,31 @@ def campaign(ctx, entries, configs, trace_cfg, tag, again=None, window_ms=1500, 
         rs = runs_for(ents, ci)
         per, info = run_config(ctx, exe, rs, cfg, "%s-c%d-%s" % (tag, ci, t), window_ms=win,
                                timeout=120 + 30 * win // 1000)
+        if info["rc"] != 0 and len(ents) > 1:
+            # the process died (crash in one taskpool takes the concurrent ones with it): run the taskpools one after
+            # another, so that the failure is attributed to the program that causes it; restart after each casualty
+            seq = dict(cfg)
+            seq["conc"] = 1
+            per = [None] * len(ents)
+            start, rounds = 0, 0
+            while start < len(ents) and rounds < 4:
+                rounds += 1
+                p2, i2 = run_config(ctx, exe, rs[start:], seq, "%s-c%d-%s-seq%d" % (tag, ci, t, rounds), window_ms=win,
+                                    timeout=180 + 30 * win // 1000)
+                info = i2
+                last = -1
+                for k, evs in enumerate(p2):
+                    if evs is not None:
+                        per[start + k] = evs
+                        last = k
+                if i2["rc"] == 0 or last < 0:
+                    break
+                start = start + last + 1          # `last` is the casualty (its events end without Final)
+            lost = sum(1 for x in per if x is None)
+            if lost:
+                ctx.extra["not_executed_after_crash"] = ctx.extra.get("not_executed_after_crash", 0) + lost
+            keep = [k for k, x in enumerate(per) if x is not None]
+            ents, rs, per = [ents[k] for k in keep], [rs[k] for k in keep], [per[k] for k in keep]
         return ci, ents, rs, per, info
 
     def absorb(ci, ents, rs, per, info, confirm_list):
@@ -354,7 +430,9 @@ def campaign(ctx, entries, configs, trace_cfg, tag, again=None, window_ms=1500, 
             hung.setdefault(e["prog"]["name"] + "@%d" % ci, (meta, exn))
         ctx.extra["timeouts_not_confirmed"] = ctx.extra.get("timeouts_not_confirmed", 0) + len(pend2) - len(again_list)
 
+    t_run.__exit__()
     # validation
+    t_val = phase(ctx, "trace_validation").__enter__()
     executions.sort(key=lambda me: me[0]["program"])
     ctx.evaluations += len(executions) + len(hung)
     ctx.extra["executions_run"] = ctx.extra.get("executions_run", 0) + len(executions) + len(hung)
@@ -379,7 +457,7 @@ def campaign(ctx, entries, configs, trace_cfg, tag, again=None, window_ms=1500, 
         ctx.violation("%s of generated PTG program %s %s under %s is rejected by ExecTrace (%s): %s" % (
             what, meta["program"], meta["tags"], meta["config"], trace_cfg, json.dumps(f.describe())[:900]),
             {"meta": meta, "events": f.execution, "detail": f.describe(), "trace_cfg": trace_cfg})
-    if not fails and distinct:
+    if not fails and distinct:          # every distinct execution was accepted: corrupt one of them
         cands = [ex for ex in distinct if 8 <= len(ex) <= 60 and any(ev.get("e") == "End" and any(ev.get("w") or [])
                                                                       for ev in ex)] or distinct
         fn, txt = corrupt_exec(trace_cfg)
@@ -401,6 +479,7 @@ def campaign(ctx, entries, configs, trace_cfg, tag, again=None, window_ms=1500, 
                           {"meta": meta, "events": ex, "detail": f.describe(), "trace_cfg": trace_cfg,
                            "jdf": jdfgen.to_jdf(entry["prog"])},
                           key=(known_key if entry["desc"] else None))
+    t_val.__exit__()
     return executions, hung
 
 
